@@ -64,3 +64,24 @@ pub assume_specification<T, E> [std::result::Result::<std::option::Option<T>, E>
         Ok(None) => None::<std::result::Result<T, E>>,
         Err(e) => Some(Err::<T, E>(e)),
     });
+
+/// std: Option<Result<T, E>>::transpose (A-std)
+pub assume_specification<T, E> [std::option::Option::<std::result::Result<T, E>>::transpose] (x: std::option::Option<std::result::Result<T, E>>) -> (r: std::result::Result<std::option::Option<T>, E>)
+    ensures r == (match x {
+        Some(Ok(v)) => Ok::<Option<T>, E>(Some(v)),
+        None => Ok::<Option<T>, E>(None),
+        Some(Err(e)) => Err::<Option<T>, E>(e),
+    });
+
+/// the records-table key an index id points to
+pub open spec fn bk_rec_id(id: ByKeyId) -> RecId { RecId { ns: id.ns, author: id.author, key: id.key } }
+
+/// the caller's filter, applied to (a borrowed form of) index id `id`, may return `b`
+pub open spec fn filter_says<F: Fn(RecordsByKeyId<'_>) -> bool>(filter: F, id: ByKeyId, b: bool) -> bool {
+    exists|k: RecordsByKeyId| bkid(k) == id && #[trigger] filter.ensures((k,), b)
+}
+/// an index id that next_filtered passes over: rejected by the filter, or stale (its record row does not exist)
+pub open spec fn skipped<F: Fn(RecordsByKeyId<'_>) -> bool>(filter: F, table: Map<RecId, RecVal>, id: ByKeyId) -> bool {
+    filter_says(filter, id, false) || (filter_says(filter, id, true) && !table.contains_key(bk_rec_id(id)))
+}
+
